@@ -182,6 +182,9 @@ def enabled(ref, tier):
                 ev.append(["setraw", key, nid])
         if key in ref.vars:
             ev.append(["del", key])
+        if key == "c" and dims and all(len(a[1]) for a in ref.axes):
+            # a new variable built ON the dataset's own axes object (DimArray(values, axes=ds.axes)): the natural way to add one
+            ev.append(["set_on_axes", key])
     fresh = [n for n in FRESH if n not in dims]
     for i, d in enumerate(dims):
         lab = ref.axes[i][1]
@@ -259,6 +262,8 @@ def apply_impl(ds, ev, made=None):
         ds[ev[1]] = arr
     elif k == "setraw":
         ds[ev[1]] = NONDA[ev[2]]
+    elif k == "set_on_axes":
+        ds[ev[1]] = DimArray(np.zeros([ax.size for ax in ds.axes]) + 5, axes=ds.axes)
     elif k == "del":
         del ds[ev[1]]
     elif k == "rename_axis":
@@ -326,6 +331,8 @@ def apply_ref(ref, ev):
         dims = ["x%d" % i for i in range(v.ndim)]
         labels = [list(range(n)) for n in v.shape]
         return "ok" if ref.assign(ev[1], dims, labels, v) else "reject"
+    if k == "set_on_axes":
+        return "ok" if ref.assign(ev[1], ref.dims(), [list(a[1]) for a in ref.axes], np.zeros([len(a[1]) for a in ref.axes]) + 5) else "reject"
     if k == "del":
         d = ref.vars.pop(ev[1])[0]
         ref.prune(d)
